@@ -20,6 +20,9 @@ from . import dsl_parse
 _KEEP = []  # keep generated modules (and their temp dirs) alive
 
 
+DIVISORS = [2, -2, 3, 4]
+
+
 def gen_expr(rng, atoms, depth=0):
     """A random expression over the given atom strings (already quoted source text)."""
     r = rng.random()
@@ -33,31 +36,34 @@ def gen_expr(rng, atoms, depth=0):
     if r < 0.65:
         return f"{gen_expr(rng, atoms, depth + 1)} {rng.choice(['+', '-'])} {gen_expr(rng, atoms, depth + 1)}"
     if r < 0.8:
-        return f"({gen_expr(rng, atoms, depth + 1)}) / {rng.choice([2, -2, 3, 4])}"
+        return f"({gen_expr(rng, atoms, depth + 1)}) / {rng.choice(DIVISORS)}"
     if r < 0.93:
         return f"{rng.choice(['dbl', 'tri'])}({gen_expr(rng, atoms, depth + 1)})"
     return f"ident({rng.choice(atoms).replace('.adj', '')})"
 
 
-def gen_program(rng, idx):
+def gen_program(rng, idx, inputs=("A",), divisors=(2, -2, 3, 4), max_factors=3):
     m = rng.choice([2, 3, 3, 4])
     names = [f"S{t}" for t in range(1, m + 1)]
     # start = "A_0": the zeroth order is the input's zeroth order, on EVERY block
-    starts = {nm: rng.choice(["0", "0", None, "1", '"A_0"']) for nm in names}
-    starts[names[0]] = rng.choice(["0", "0", None, '"A_0"'])
+    global DIVISORS
+    DIVISORS = list(divisors)
+    in0 = [f'"{x}_0"' for x in inputs]
+    starts = {nm: rng.choice(["0", "0", None, "1", rng.choice(in0)]) for nm in names}
+    starts[names[0]] = rng.choice(["0", "0", None, rng.choice(in0)])
     zero_start = [nm for nm in names if starts[nm] == "0"]
     products = []
     # products closing the recursion: all factors start at zero
     for _ in range(rng.choice([0, 1, 2])):
         if len(zero_start) >= 1:
-            nf = rng.choice([2, 2, 3])
+            nf = rng.choice([2, 2, 3]) if max_factors >= 3 else 2
             fs = [rng.choice(zero_start) for _ in range(nf)]
             products.append((" @ ".join(fs), None, False))
     # forward products: input / earlier series only, usable from a later series
     fwd = []
     for t in range(2, m + 1):
         if rng.random() < 0.5:
-            pool = ["A"] + names[: t - 1]
+            pool = list(inputs) + names[: t - 1]
             fs = [rng.choice(pool) for _ in range(2)]
             if sum(1 for f in fs if starts.get(f) == "1") >= 2:
                 # one @ one plus another term is the bare-`one` sum the library cannot form
@@ -74,7 +80,7 @@ def gen_program(rng, idx):
     for t, nm in enumerate(names, start=1):
         # a series that starts with the `one` sentinel can only be used as a product factor
         # (the sentinel supports neither +, - nor .adj): it is not an expression atom
-        atoms = ['"A"'] + [f'"{x}"' for x in names[: t - 1] if starts[x] != "1"]
+        atoms = [f'"{x}"' for x in inputs] + [f'"{x}"' for x in names[: t - 1] if starts[x] != "1"]
         atoms += [f'"{p[0]}"' for p in allp if p[1] is None or p[1] <= t]
         lines.append(f'    with "{nm}":')
         if starts[nm] is not None:
@@ -125,6 +131,29 @@ def load_function(src, idx):
     fn = ns[f"prog_{idx}"]
     linecache.checkcache(path)
     return fn
+
+
+def numeric_specs(rng, n):
+    """Programs over TWO inputs, run on numpy values (dyadic divisors only), with and without
+    the linear-operator mode of one diagonal block."""
+    out = []
+    for q in range(n):
+        idx = rng.randrange(10**6)
+        nb = rng.choice([2, 2, 3])
+        lo_block = [None, nb - 1, nb - 1, rng.randrange(nb)][q % 4]
+        # with a block kept as linear operators only BINARY products: the intermediate plain product of an
+        # n-ary product at that block would have to add dense arrays to operators (TypeError in the library;
+        # the shipped algorithms only declare binary products)
+        src = gen_program(rng, idx, inputs=("A", "B"), divisors=(2, -2, 4), max_factors=3 if lo_block is None else 2)
+        fn = load_function(src, idx)
+        prog = dsl_parse.parse_algorithm(src)
+        sizes = [rng.choice([1, 2, 2, 3]) for _ in range(nb)]
+        k = rng.choice([1, 1, 2])
+        out.append(dict(algo="generated", source=src, hermitian=False, nb=nb, sizes=sizes, k=k,
+                        N=3 if k == 1 else 2, masked=[], flags={}, generic_zeroth=True, numeric=True,
+                        lo_block=lo_block, inputs=["A", "B"],
+                        _func=fn, _prog=prog))
+    return out
 
 
 def generated_specs(rng, n):
